@@ -32,4 +32,4 @@ def run(ctx, R):
     R.inst('C17.N', 'guard-reads-only-fixed-part', True, expected='all guard reads below byte 16', found='%d reads checked' % reads, entry=p)
     R.floor('guard byte reads inspected', reads, 20)
     # both incomplete variants are classified incomplete
-    cl = classify.classification(ctx, R, 'C17.C', only='incomplete', enums=[tables.V2_ERR])
+    cl = classify.classification(ctx, R, 'C17.C', enums=[tables.V2_ERR])     # and no other v2 variant is: a result flagged incomplete must carry the two counts
